@@ -317,6 +317,8 @@ type pxRig struct {
 	orig     map[int64]*Rpc
 	byId     map[uint64]int64
 	bareOwner map[error]*pxRec
+	onFail    map[int64]int64 // disconnect callback for name k calls AddClient(onFail[k]) from inside the callback
+	extra     []string        // terms of actions performed from inside callbacks during the current step
 	hterms    bool          // emit the held-model terms (HHold / HRelease / HWait / HA ...)
 	holdName  int64         // the disconnect callback for this name blocks ...
 	holdCh    chan struct{} // ... until this is closed
@@ -572,6 +574,14 @@ func (r *pxRig) do(a PAct) string {
 			return "HRelease"
 		}
 		return ""
+	case "onfail-attach": // arm: the disconnect callback for name N calls AddClient(Dst) (no model action by itself)
+		r.mu.Lock()
+		if r.onFail == nil {
+			r.onFail = map[int64]int64{}
+		}
+		r.onFail[a.N] = a.Dst
+		r.mu.Unlock()
+		return ""
 	case "tick": // a step of its own without any action: D milliseconds of virtual time go by
 		time.Sleep(time.Duration(a.V) * time.Millisecond)
 		synctest.Wait()
@@ -687,11 +697,23 @@ func (r *pxRig) start() {
 				who = int64(rec.idx)
 			}
 			r.discs = append(r.discs, coqPair(coqZ(pxTok(id)), coqZ(who)))
+			var attach *pxRec
+			if n, ok := r.onFail[pxTok(id)]; ok {
+				// the callback re-attaches a peer: AddClient from inside the disconnect callback
+				delete(r.onFail, pxTok(id))
+				attach = &pxRec{name: n, ep: NewEndpoint(pxName(n)), idx: len(r.recs)}
+				attach.ep.ByRef = r.sc.ByRef
+				r.recs = append(r.recs, attach)
+				r.extra = append(r.extra, fmt.Sprintf("AAttach %s true", coqZ(n)))
+			}
 			var hold chan struct{}
 			if r.holdCh != nil && r.holdName == pxTok(id) {
 				hold, r.holdName = r.holdCh, 0 // a slow callback: the serve loop stays in here until "release"
 			}
 			r.mu.Unlock()
+			if attach != nil {
+				r.p.AddClient(pxName(attach.name), r.conn(attach, false))
+			}
 			if hold != nil {
 				<-hold
 			}
@@ -799,6 +821,10 @@ func runPxScenario(t *testing.T, idx int, kind string, sc pxScenario, em *Emitte
 				continue
 			}
 			synctest.Wait()
+			rig.mu.Lock()
+			terms = append(terms, rig.extra...) // AddClient calls made from inside callbacks during this step
+			rig.extra = nil
+			rig.mu.Unlock()
 			if rig.cancelW && rig.ctx.Err() == nil {
 				// the envelope that was to trigger the cancellation never reached the interceptor
 				rig.cancel()
